@@ -2,14 +2,20 @@
 """seedtest.py <PID> <k> [extra check ids...] — confirm a seeded change in its scratch worktree, then run the
 registered checks against it in /repo (apply, check, undo) and store everything under /verif/seeded/<PID>-<k>/."""
 import sys, os, subprocess, json, shutil, re, time
-pid, k = sys.argv[1], sys.argv[2]
-extra = sys.argv[3:]
-WT = '/tmp/seed/%s' % pid
-OUT = '/tmp/seed/%s-out' % pid
+args = [a for a in sys.argv[1:] if not a.startswith('--')]
+flags = [a for a in sys.argv[1:] if a.startswith('--')]
+pid, k = args[0], args[1]
+extra = args[2:]
+CONFIRM = '--check-only' not in flags
+CHECK = '--confirm-only' not in flags
+ROOT = os.environ.get('SEED_ROOT', '/tmp/seed')
+OFFSET = int(os.environ.get('SEED_OFFSET', '0'))
+WT = '%s/%s' % (ROOT, pid)
+OUT = '%s/%s-out' % (ROOT, pid)
 patch = os.path.join(OUT, 'patch%s.diff' % k)
 demo = os.path.join(OUT, 'demo%s.rs' % k)
 meta = json.load(open(os.path.join(OUT, 'meta%s.json' % k)))
-dst = '/verif/seeded/%s-%s' % (pid, k)
+dst = '/verif/seeded/%s-%d' % (pid, int(k) + OFFSET)
 os.makedirs(dst, exist_ok=True)
 
 def sh(cmd, cwd=None, timeout=3600):
@@ -21,27 +27,31 @@ def summary(out):
 
 ran = []
 # --- confirm in the scratch worktree
-sh('git checkout -- . && rm -f tests/seed_demo.rs', cwd=WT)
-shutil.copy(demo, os.path.join(WT, 'tests', 'seed_demo.rs'))
-rc0, o0 = sh('cargo test --offline --test seed_demo 2>&1', cwd=WT)
-ran.append({'cmd': 'unchanged: cargo test --offline --test seed_demo', 'rc': rc0, 'summary': summary(o0)})
-rc, o = sh('git apply %s' % patch, cwd=WT)
-assert rc == 0, o
-rcb, ob = sh('cargo build --offline 2>&1', cwd=WT)
-os.rename(os.path.join(WT, 'tests', 'seed_demo.rs'), '/tmp/seed/%s-demo-hold.rs' % pid)
-rc1, o1 = sh('cargo test --offline --no-fail-fast 2>&1', cwd=WT)
-fails = re.findall(r'^test (\S+) \.\.\. FAILED', o1, flags=re.M)
-ran.append({'cmd': 'changed: cargo test --offline --no-fail-fast', 'rc': rc1, 'summary': summary(o1), 'failed_tests': fails})
-os.rename('/tmp/seed/%s-demo-hold.rs' % pid, os.path.join(WT, 'tests', 'seed_demo.rs'))
-rc2, o2 = sh('cargo test --offline --test seed_demo 2>&1', cwd=WT)
-ran.append({'cmd': 'changed: cargo test --offline --test seed_demo', 'rc': rc2, 'summary': summary(o2)})
-sh('git checkout -- . && rm -f tests/seed_demo.rs', cwd=WT)
-confirmed = (rc0 == 0 and rcb == 0 and fails == ['functions::test_to_serde_json'] and rc2 != 0)
-print('confirmed:', confirmed, [r['summary'] for r in ran], fails)
+if not CONFIRM:
+    prev = json.load(open(os.path.join(dst, 'meta.json')))
+    confirmed, ran = prev['confirmed_in_scratch_worktree'], prev['ran']
+if CONFIRM:
+    sh('git checkout -- . && rm -f tests/seed_demo.rs', cwd=WT)
+    shutil.copy(demo, os.path.join(WT, 'tests', 'seed_demo.rs'))
+    rc0, o0 = sh('cargo test --offline --test seed_demo 2>&1', cwd=WT)
+    ran.append({'cmd': 'unchanged: cargo test --offline --test seed_demo', 'rc': rc0, 'summary': summary(o0)})
+    rc, o = sh('git apply %s' % patch, cwd=WT)
+    assert rc == 0, o
+    rcb, ob = sh('cargo build --offline 2>&1', cwd=WT)
+    os.rename(os.path.join(WT, 'tests', 'seed_demo.rs'), '%s/%s-demo-hold.rs' % (ROOT, pid))
+    rc1, o1 = sh('cargo test --offline --no-fail-fast 2>&1', cwd=WT)
+    fails = re.findall(r'^test (\S+) \.\.\. FAILED', o1, flags=re.M)
+    ran.append({'cmd': 'changed: cargo test --offline --no-fail-fast', 'rc': rc1, 'summary': summary(o1), 'failed_tests': fails})
+    os.rename('%s/%s-demo-hold.rs' % (ROOT, pid), os.path.join(WT, 'tests', 'seed_demo.rs'))
+    rc2, o2 = sh('cargo test --offline --test seed_demo 2>&1', cwd=WT)
+    ran.append({'cmd': 'changed: cargo test --offline --test seed_demo', 'rc': rc2, 'summary': summary(o2)})
+    sh('git checkout -- . && rm -f tests/seed_demo.rs', cwd=WT)
+    confirmed = (rc0 == 0 and rcb == 0 and fails == ['functions::test_to_serde_json'] and rc2 != 0)
+print('confirmed:', confirmed, [r['summary'] for r in ran])
 
 # --- run our checks against the change in /repo
 results = {}
-if confirmed:
+if confirmed and CHECK:
     rc, o = sh('git -C /repo status --porcelain')
     assert o.strip() == '', 'repo dirty: ' + o
     rc, o = sh('git -C /repo apply %s' % patch)
